@@ -18,6 +18,7 @@ EXPLANATION = (
     "return None without raising."
 )
 BOUNDS = {"quick": "11 line kinds, line orders of <=4 objects, 3 separator styles, junk lines at every position; CrossHair: |line|<=20, 40 s per condition", "thorough": "plus all orders of the 6-line SE(3) file, all parameter/edge id (in)equalities"}
+BOUNDS = {k: v + "; load history (custom edge types registered in an earlier load); float64 validation runs with numbers of extreme magnitude" for k, v in BOUNDS.items()}
 OUTSIDE = "lexical forms accepted by the builtin float()/int() (delegated by contract: float(shortest-repr(x)) == x), inf/nan, lines longer than 20 characters for the dispatch clause"
 ASSUMPTIONS = ["float/int stubs resolve a token to the number it was formatted from", "unit quaternions on SE(3) edge lines", "distinct ids for distinct vertices"]
 
@@ -226,6 +227,31 @@ def _entry_points_agree(names):
     return fn
 
 
+def _load_history(P, g):
+    """loads do not leave anything behind: after Graph.from_g2o(file, custom_edge_types=[DistEdge]) the same file loaded
+    WITHOUT custom types (through either entry point) skips the custom line with one warning, and a load with the custom
+    type afterwards sees it again"""
+    fs = install_io(P, g)
+    logs = capture_logs(g)
+    ids = {k: P.int("id_" + k) for k in ("a2", "b2", "a3", "b3", "l2", "l3", "p2")}
+    P.distinct(list(ids.values()))
+    pid = P.int("pid")
+    S = make_specs(P, g, ids, pid)
+    fs.files["in.g2o"] = "".join(S[nm].text(" ", "\n") for nm in CUSTOM_FILE)
+    DistEdge = custom_edge_class(g, P)
+    n_edges_plain = len([nm for nm in CUSTOM_FILE if S[nm].kind in ("odom", "lmk")])
+    n_edges_custom = n_edges_plain + 1
+    first = g.Graph.from_g2o("in.g2o", custom_edge_types=[DistEdge])
+    P.check("first_load_with_custom", len(first._edges) == n_edges_custom and len([r for r in logs.records if r.levelno >= 30]) == 0)
+    for k, loader in enumerate([lambda: g.Graph.from_g2o("in.g2o"), lambda: g.load_mod.load_g2o("in.g2o"), lambda: g.Graph.from_g2o("in.g2o", custom_edge_types=[])]):
+        before = len([r for r in logs.records if r.levelno >= 30])
+        gr = loader()
+        P.check("plain_load_%d_skips_custom_line" % k, len(gr._edges) == n_edges_plain and not any(type(e).__name__ == "DistEdge" for e in gr._edges))
+        P.check("plain_load_%d_warns_once" % k, len([r for r in logs.records if r.levelno >= 30]) - before == 1)
+    again = g.Graph.from_g2o("in.g2o", custom_edge_types=[DistEdge])
+    P.check("custom_load_again", len(again._edges) == n_edges_custom and len(first._edges) == n_edges_custom)
+
+
 SE2_FILE = ["VERTEX_SE2:a2", "VERTEX_SE2:b2", "VERTEX_XY", "EDGE_SE2", "EDGE_SE2_XY", "PARAMS_SE2OFFSET"]
 SE3_FILE = ["PARAMS_SE3OFFSET", "VERTEX_SE3:QUAT:a3", "VERTEX_SE3:QUAT:b3", "VERTEX_TRACKXYZ", "EDGE_SE3:QUAT", "EDGE_SE3_TRACKXYZ"]
 CUSTOM_FILE = ["VERTEX_SE3:QUAT:a3", "VERTEX_SE3:QUAT:b3", "EDGE_DIST", "EDGE_SE3:QUAT"]
@@ -238,10 +264,27 @@ def _legal(order):
     return True
 
 
+EXTREMES = [1.2e308, -9.5e307, 1.7976931348623157e308, 1e300, -1e300, 5e-324, -2.2250738585072014e-308, 1e-310, 2.0 ** 53 + 2.0, 1e22, 0.1, -0.0]
+
+
+def _extreme_file(names):
+    """the ordinary file case; its float64 validation runs draw the numbers of the file from doubles of extreme magnitude
+    (close to overflow, subnormal): what is loaded is still exactly what the text says"""
+    inner = _file_case(list(names), "space", set(), "Graph.from_g2o")
+
+    def fn(P, g):
+        P.draw_from(EXTREMES)
+        return inner(P, g)
+
+    return fn
+
+
 def cases(tier):
     out = []
     v = 1
     n = 0
+    out.append(Case("extreme-magnitudes-se2", _extreme_file(SE2_FILE), timeout=10, old_timeout=20, validate=4, feas_timeout_ms=1000, val_tol=1e-9, shadow=False))
+    out.append(Case("extreme-magnitudes-se3", _extreme_file(SE3_FILE), timeout=10, old_timeout=20, validate=4, feas_timeout_ms=1000, val_tol=1e-9, shadow=False))
 
     def add(names, sep, junk, entry="Graph.from_g2o"):
         nonlocal n
@@ -274,6 +317,7 @@ def cases(tier):
     for entry in ["load_g2o", "load_g2o_r2", "load_g2o_r3", "load_g2o_se2", "load_g2o_se3"]:
         add(SE2_FILE, "space", (2,), entry)
         add(SE3_FILE, "tabs", (), entry)
+    out.append(Case("load-history-custom-types", _load_history, timeout=10, validate=1, feas_timeout_ms=1000))
     out.append(Case("entrypoints-se2", _entry_points_agree(SE2_FILE), timeout=10, validate=1, feas_timeout_ms=1000))
     out.append(Case("entrypoints-se3", _entry_points_agree(SE3_FILE), timeout=10, validate=1, feas_timeout_ms=1000))
     return out
